@@ -14,7 +14,8 @@ Theorem C01_plan_exact : forall G T Cur plan,
     (forall r, In r plan <-> AncOf G T r /\ ~ AncOf G Cur r) /\
     (forall pre r post, plan = pre ++ r :: post ->
        forall p, In p (all_down G r) -> In p pre \/ AncOf G Cur p).
-Proof. intros G T Cur plan WF AC NOK E. pose proof (upgrade_plan_result G WF AC NOK T Cur) as H. rewrite E in H. exact H. Qed.
+Proof. intros G T Cur plan WF AC NOK E. pose proof (upgrade_plan_result G WF AC NOK T Cur) as H. rewrite E in H.
+  exact (proj2 (H (TIds T) (proj2 (seteqN_spec T T) (fun x => iff_refl _)))). Qed.
 Print Assumptions C01_plan_exact.
 
 (* The planner never runs out of fuel (the topological sort terminates), never trips
@@ -26,14 +27,15 @@ Proof. intros G T Cur e WF AC NOK E. pose proof (upgrade_plan_result G WF AC NOK
   destruct e; try contradiction. auto. Qed.
 Print Assumptions C01_total.
 
+(* whenever the resolved targets are the ones the documentation defines for the request (ref_agrees) *)
 Theorem C01_model_holds : forall G, wf_refs G -> ~ cyclic (all_down G) -> ndeps_ok G ->
-  forall T Cur, C01_holds (G, T, Cur) (upgrade_plan G T Cur).
+  forall t T Cur, ref_agrees G Cur t T = true -> C01_holds (G, t, T, Cur) (upgrade_plan G T Cur).
 Proof. exact model_holds. Qed.
 Print Assumptions C01_model_holds.
 
 (* the boolean decider run on the implementation's plans implies the Prop-level property *)
-Theorem C01_decider_sound : forall G, wf_refs G -> forall T Cur out,
-  check_C01 (G, T, Cur) out = true -> C01_holds (G, T, Cur) out.
+Theorem C01_decider_sound : forall G, wf_refs G -> forall t T Cur out,
+  check_C01 (G, t, T, Cur) out = true -> C01_holds (G, t, T, Cur) out.
 Proof. exact decider_sound. Qed.
 Print Assumptions C01_decider_sound.
 
@@ -53,5 +55,7 @@ Definition ex_G : graph :=
   [mkRev 0 [] [] [] []; mkRev 1 [0] [] [] []; mkRev 2 [0] [] [] []; mkRev 3 [1;2] [] [] [];
    mkRev 4 [] [] [] []; mkRev 5 [4] [3] [3] []]%N.
 Example C01_nonvacuous : wf_graphb ex_G = true /\ upgrade_plan ex_G [5]%N [1; 4]%N = POk [2; 3; 5]%N
-  /\ check_C01 (ex_G, [5], [1;4])%N (POk [2; 3; 5]%N) = true.
-Proof. vm_compute. auto. Qed.
+  /\ check_C01 (ex_G, TIds [5], [5], [1;4])%N (POk [2; 3; 5]%N) = true
+  /\ ref_targets ex_G [1;4]%N THeads = RefOk [5]%N /\ ref_targets ex_G [3]%N (TRelCur 1) = RefError
+  /\ ref_targets ex_G [2]%N (TRelId 4 1) = RefOk [5]%N.
+Proof. vm_compute. auto 10. Qed.
